@@ -210,6 +210,104 @@ def conc_cycle_protocol(bd, wd, quick, seed, traces, verdict):
     return ev, states + ginfo["steps"]
 
 
+def _viol_keys(trace, res):
+    """Violations of C06 kinds keyed by (run index, kind, node, got, want, offset in the run)."""
+    evs = vp.read_ndjson(trace)
+    resets = [i + 1 for i, e in enumerate(evs) if e.get("e") == "reset"]
+    import bisect
+    out = {}
+    for v in res["viol"]:
+        if v["kind"] not in KINDS:
+            continue
+        run_idx = bisect.bisect_left(resets, v["at"])
+        start = resets[run_idx - 1] if run_idx > 0 else 0
+        out[(run_idx, v["kind"], v["n"], v["got"], v["want"], v["at"] - start)] = v
+    return out
+
+
+def _limited(bd, binary, args, mem_kb=6_000_000, timeout=1500):
+    """Run a harness binary under an address-space limit (a runaway recursion in the code under test must not
+    take the machine down); returns the CompletedProcess (no exception on death)."""
+    cmd = ["bash", "-c", f"ulimit -v {mem_kb}; exec \"$0\" \"$@\"", os.path.join(bd, binary)] + [str(a) for a in args]
+    return vp.run(cmd, timeout=timeout, check=False)
+
+
+def firewall_on_cycle(bd, wd, quick, seed, verdict):
+    """Cycles through firewalls / projections (tools/gen_cyc.py --fw): the first ring node is a firewall, a
+    projection reads it.  Two things are decided: every request terminates (the process neither hangs nor dies:
+    FX_FW_TFC_RECURSION), and values.  Values handed out for such programs are wrong in a class of histories
+    on the unchanged tree (known finding KF_FW_ON_CYCLE: dirty propagation stops at the firewall, so the two
+    sides of the cycle are re-verified independently); a violation is attributed to it only if the pinned
+    baseline tree shows the identical wrong observable at the same place of the same history."""
+    known = {k["id"]: k for k in vp.load_known() if k["property"] == PID}
+    fam = os.path.join(wd, "fwcyc_family.ndjson")
+    vp.run(["python3", os.path.join(vp.ROOT, "tools", "gen_cyc.py"), fam, str(seed + 11), "30" if quick else "200",
+            "60" if quick else "400", "--fw"])
+    r = vp.tlc("EngineObsGen", cfg="EngineObsGenSim.cfg", env={"FAMILY": fam, "SHARD": "0", "SHARDS": "1"},
+               workers=1, timeout=1200, check_ok=False,
+               extra=["-simulate", f"num={300 if quick else 4000}", "-depth", "80", "-seed", str(seed + 5)])
+    cases = os.path.join(wd, "fwcyc_cases.ndjson")
+    n = _json_lines(r["out"], cases)
+    if n == 0:
+        raise vp.ToolError("no behaviours generated for the firewall-on-cycle family:\n" + r["out"][-2000:])
+    with open(cases, "a") as f:
+        for line in open(os.path.join(vp.ROOT, "witness", "c06_fw_tfc_recursion.ndjson")):
+            if line.strip():
+                f.write(line.strip() + "\n"); n += 1
+    ev = {"histories": n}
+    tr = os.path.join(wd, "fwcyc.ndjson")
+    p = _limited(bd, "eng_seq", ["--out", tr, "--mode", "replay", "--cyc", "1", "--in", cases])
+    if p.returncode != 0:
+        # find the history that brings the process down
+        bad = None
+        lines = [l for l in open(cases) if l.strip()]
+        one = os.path.join(wd, "fwcyc_one.ndjson")
+        for i, l in enumerate(lines):
+            open(one, "w").write(l)
+            q = _limited(bd, "eng_seq", ["--out", one + ".tr", "--mode", "replay", "--cyc", "1", "--in", one], mem_kb=3_000_000, timeout=60)
+            if q.returncode != 0:
+                bad = (i, json.loads(l), q.returncode, (q.stdout or "")[-800:])
+                break
+        verdict.violation(f"no_progress: the harness process died (rc={p.returncode}) while replaying the firewall-on-cycle family"
+                          + (f"; history {bad[0]} alone: rc={bad[2]} {bad[3][-200:]}" if bad else ""),
+                          {"property": PID, "kind": "no_progress", "origin": "firewall-on-cycle family",
+                           "case": bad[1] if bad else None, "rc": p.returncode})
+        ev["process_died"] = True
+        return ev, 0
+    res, rr = ec.validate(tr, tr + ".result.json", timeout=3000)
+    mine = _viol_keys(tr, res)
+    ev.update({"events_validated": res["events"], "queries": res["stats"].get("queries", 0),
+               "queries_not_judged_reference_ambiguous": res["stats"].get("ambig", 0),
+               "cut_executor_runs": res["stats"].get("cyc", 0), "deviations": len(mine)})
+    for v in res["viol"]:
+        if v["kind"].startswith("harness_"):
+            raise vp.ToolError(f"harness inconsistency {v} in {tr}")
+    same = new = 0
+    if mine:
+        bdb = ec.build_baseline()
+        trb = os.path.join(wd, "fwcyc_baseline.ndjson")
+        pb = _limited(bdb, "eng_seq", ["--out", trb, "--mode", "replay", "--cyc", "1", "--in", cases])
+        base = {}
+        if pb.returncode == 0:
+            resb, _ = ec.validate(trb, trb + ".result.json", timeout=3000)
+            base = _viol_keys(trb, resb)
+        lines = [l for l in open(cases) if l.strip()]
+        for key, v in sorted(mine.items()):
+            if key in base and "KF_FW_ON_CYCLE" in known and known["KF_FW_ON_CYCLE"].get("status") == "known":
+                same += 1
+                verdict.known_finding("KF_FW_ON_CYCLE", known["KF_FW_ON_CYCLE"]["what"])
+            else:
+                new += 1
+                if new <= 4:
+                    verdict.violation(f"{v['kind']} node={v['n']} got={v['got']} want={v['want']} (firewall-on-cycle family; "
+                                      f"the pinned baseline tree does not show this deviation)",
+                                      {"property": PID, "violation": v, "origin": "firewall-on-cycle family",
+                                       "case": json.loads(lines[key[0]]), "cyc": 1})
+    ev["deviations_identical_in_baseline_tree"] = same
+    ev["deviations_not_in_baseline_tree"] = new
+    return ev, rr["distinct"]
+
+
 def run(tier, seed):
     t0 = time.time()
     bd = vp.build()
@@ -282,6 +380,8 @@ def run(tier, seed):
     cyc_mechanism, cyc_states = engine_cyc(bd, wd, quick, seed, traces, case_files, verdict)
     conc_cyc, conc_states = conc_cycle_protocol(bd, wd, quick, seed, traces, verdict)
     cyc_states += conc_states
+    fwcyc, fw_states = firewall_on_cycle(bd, wd, quick, seed, verdict)
+    cyc_states += fw_states
     # design level: the cycle search transcribed step by step (CycleSearch.tla) meets its contract on every
     # digraph of 4 computing queries in every breadth-first order; its two mutations are refuted
     cs = vp.tlc("CycleSearch", cfg="CycleSearch_asis.cfg", workers=4, timeout=900, check_ok=False, xmx="6g")
@@ -333,6 +433,7 @@ def run(tier, seed):
         "cycle_search_model": cycle_search_model,
         "cycle_mechanism_model_EngineCyc": cyc_mechanism,
         "concurrent_cycle_protocol_EngineConc": conc_cyc,
+        "firewall_on_cycle_family": fwcyc,
         "cyclic_programs": nprogs,
         "histories_from_tlc": nb,
         "events_validated": events,
